@@ -1,6 +1,8 @@
 import TongoModel.BitOps
 import TongoProofs.Lemmas.BitStringRound
 import TongoProofs.Lemmas.MinBitsGen
+import TongoProofs.Lemmas.BitStringFift
+import TongoProofs.Lemmas.BitStringCanon
 /-! Property C06 — bit-string and cell read/write primitives behave like an ideal bit list.
 Property theorems only; helper lemmas live in `TongoProofs/Lemmas/BitString*.lean`.
 
@@ -280,6 +282,33 @@ theorem no_panic (op : Op) (hwf : op.WF) (s : BitString) (hi : Inv s) : ∀ p, (
   have h := (Tongo.op_refines op hwf s ⟨abs s, s.cap, s.rCursor⟩ ⟨hi, rfl, rfl, rfl⟩).1
   rw [hp] at h
   exact spec_ne_panic op _ p h.symm
+
+/-- `canonical_buffer`: under the invariant the first ⌈len/8⌉ buffer bytes are exactly the packing of the written bits
+with zero padding — the bytes `Buffer()` / `bocReprWithoutRefs` expose and the cell hash consumes depend only on the
+abstract bits. Together with `inv_all_ops` and `readBits_refines`: equal bits ⇒ equal data bytes. -/
+theorem canonical_buffer (s : BitString) (hi : Inv s) : s.buf.take ((s.len + 7) / 8) = bitsToBytes (abs s) :=
+  buf_take_eq_bitsToBytes s hi
+
+/-! ## Fift hex -/
+
+/-- `ToFiftHex` returns the Fift hex text of the written bits: one upper-case hex digit per four bits; when the length is
+not a multiple of four, the last group is completed by `1 0…` and the text ends with `_`. It never panics or fails on a
+state satisfying the invariant (it pads a grown copy). -/
+theorem toFiftHex_spec (s : BitString) (hi : Inv s) : toFiftHex s = .ok (fiftSpec (abs s)) := toFiftHex_eq s hi
+
+/-- `fifthex_roundtrip`: for every bit string (every length, 0..1023 included, every content),
+`BitStringFromFiftHex (ToFiftHex s)` succeeds and yields the same bits (in a bit string of exactly that capacity
+satisfying the invariant). -/
+theorem fifthex_roundtrip (s : BitString) (hi : Inv s) :
+    ∃ txt s', toFiftHex s = .ok txt ∧ fromFiftHex txt = .ok s' ∧ abs s' = abs s ∧ Inv s' ∧ s'.cap = s.len := by
+  obtain ⟨s', h1, h2, h3, h4⟩ := fromFiftHex_fiftSpec (abs s)
+  exact ⟨_, s', toFiftHex_eq s hi, h1, h2, h3, by rw [h4, hi.abs_length]⟩
+
+/-- Non-vacuity (test on a literal): 5 bits 10110 print as `B4_` and parse back. -/
+example : let s := (writeBitArray [true, false, true, true, false] (BitString.new 9)).2
+    Inv s ∧ toFiftHex s = .ok ['B', '4', '_'] ∧
+    (match fromFiftHex ['B', '4', '_'] with | .ok r => abs r | _ => []) = [true, false, true, true, false] := by
+  decide +kernel
 
 /-! ## References of a cell -/
 
